@@ -1,6 +1,6 @@
 #!/bin/bash
 # tools/keep_seed.sh C10 1 "<what I ran / result>" : store a confirmed seeded change under /verif/seeded/<id>-<k>/
-P=$1; K=$2; NOTE=$3; S=/tmp/seed_$P/out; T=/verif/seeded/$P-$K
+P=$1; K=$2; NOTE=$3; R=${ROUND:-1}; if [ "$R" = "1" ]; then S=/tmp/seed_$P/out; N=$K; else S=/tmp/seed${R}_$P/out; N=$((K + 2*(R-1))); fi; T=/verif/seeded/$P-$N
 mkdir -p $T; cp $S/patch$K.diff $T/patch.diff; cp $S/demo$K.py $T/demo.py
 python3 - "$S/meta$K.json" "$T/meta.json" "$NOTE" <<'PY'
 import json,sys
